@@ -207,7 +207,7 @@ def build(desc):
             K = VariableDiffusivityIdeal
         res = K(desc["nx"], desc["p_f"], desc["p_i"], None)
         return res, time, None, None, None
-    tab = tables.from_desc(desc["table"])
+    tab = tables.from_desc(dict(desc["table"], datum=None) if desc.get("alpha_branch") else desc["table"])
     with warnings.catch_warnings():
         warnings.simplefilter("ignore")
         if desc.get("alpha_branch"):
@@ -279,6 +279,49 @@ def simulate(res, time, sched):
             res.simulate(time)
         else:
             res.simulate(time, sched)
+
+
+def simulate_concurrently(runs, switch_interval=1e-5, timeout=240):
+    """runs: list of (reservoir, time, schedule). All simulate() calls run at once, one thread each
+    (the sparse solver releases the interpreter lock, so they truly overlap). Returns
+    (events by position or None, errors). The recording contracts are thread-safe (list append);
+    the FP trap and the solver spy's extrema are not consulted for these runs."""
+    import sys
+    import threading
+
+    errs = []
+
+    def work(k):
+        res, time, sched = runs[k]
+        try:
+            with warnings.catch_warnings():
+                warnings.simplefilter("ignore")
+                if sched is None:
+                    res.simulate(time)
+                else:
+                    res.simulate(time, sched)
+        except Exception as e:  # noqa: BLE001
+            errs.append((k, repr(e)))
+
+    SIM_EVENTS.clear()
+    old = sys.getswitchinterval()
+    sys.setswitchinterval(switch_interval)
+    try:
+        th = [threading.Thread(target=work, args=(k,), daemon=True) for k in range(len(runs))]
+        for t in th:
+            t.start()
+        for t in th:
+            t.join(timeout)
+    finally:
+        sys.setswitchinterval(old)
+    if any(t.is_alive() for t in th):
+        errs.append((-1, "thread still running after the time-out"))
+    evs = []
+    for res, _, _ in runs:
+        mine = [e for e in SIM_EVENTS if e["obj"] is res]
+        evs.append(mine[-1] if len(mine) == 1 else None)
+    SIM_EVENTS.clear()
+    return evs, errs
 
 
 def frac_face_values(desc, res, fluid, time, sched):
